@@ -54,6 +54,7 @@ type cacheOp struct {
 	// what the origin will answer if executed
 	wantStatus int
 	size       int
+	empty      bool
 	ctype      string
 	enc        string
 	durMs      int
@@ -185,6 +186,12 @@ func cacheMain(s *simrt.Sim, info *harness.RunInfo) {
 		id := fmt.Sprintf("%s#%d#", op.path, nexec)
 		body := id + strings.Repeat("x", max(0, op.size-len(id)))
 		op.execBody = body
+		if op.empty {
+			// a response without a body: the execution is recognised by a content type of its own
+			body = ""
+			op.ctype = "application/x-e" + strconv.Itoa(nexec)
+			op.execBody = "ctype:" + op.ctype
+		}
 		s.Logf("op%d origin exec %q", op.id, id)
 		simrt.Yield(303)
 		if op.durMs > 0 {
@@ -241,6 +248,13 @@ func cacheMain(s *simrt.Sim, info *harness.RunInfo) {
 				op.wantStatus = simrt.PickS(s, 404, 500, 302, 410, 201, 301)
 			}
 			op.size = s.Range(12, 60)
+			if s.Chance(100) {
+				op.empty = true // no body at all (a 204, or a 200 without content)
+				op.size = 0
+				if op.wantStatus == 200 && s.Chance(500) {
+					op.wantStatus = 204
+				}
+			}
 			if maxBytes > 0 && s.Chance(150) {
 				op.size = maxBytes + s.Range(1, 20)
 			}
@@ -354,7 +368,11 @@ func cacheMain(s *simrt.Sim, info *harness.RunInfo) {
 			s.Fail("C14.progress", "op%d never returned", r.id)
 			continue
 		}
-		x := byBody[r.body]
+		bkey := r.body
+		if bkey == "" && strings.HasPrefix(r.rctype, "application/x-e") {
+			bkey = "ctype:" + r.rctype
+		}
+		x := byBody[bkey]
 		if x == nil && r.body == "" && r.xcache == "hit" && sim != nil {
 			if found, earlier := sim.ExpiredGetBetween2(r.method+"_body", r.path, r.issue, r.ret); found && earlier {
 				// the body record had been stored with an earlier expiry than the entry referring to it
